@@ -290,3 +290,27 @@ def run(model: Model, rep: Report) -> None:
     tail = [unparse(s) for s in rl.node.body if isinstance(s, ast.Expr)]  # type: ignore[attr-defined]
     ok4 = tail[-2:] == ["render(ltpage)", "self.write_text('\\x0c')"]
     r5.check(ok4, site(rl), rl.qualname, "the page is rendered, then exactly one form feed is written", why=f"tail statements {tail[-2:]}")
+    _control_chars(model, rep)
+
+
+def _control_chars(model: Model, rep: Report) -> None:
+    """C11-R6: with strip_control the XML converter removes exactly the characters XML 1.0 cannot carry."""
+    from ..fold import Folder, Regex, Unfoldable
+
+    r6 = rep.rule("C11-R6", "TABLE", "strip_control removes every C0 control character that XML 1.0 forbids (all but tab, line feed, carriage return) and nothing printable; write_text applies it before escaping", 2)
+    ci = model.cls(CV + "XMLConverter")
+    v = ci.attrs.get("CONTROL")
+    if v is None:
+        raise AnchorMissing("XMLConverter.CONTROL not found")
+    try:
+        rx = Folder(model).fold(ci.module, v)
+    except Unfoldable as e:
+        raise AnchorMissing(f"XMLConverter.CONTROL is not a constant pattern: {e}")
+    got = rx.byteset() if isinstance(rx, Regex) else frozenset()
+    want = frozenset(c for c in range(0x20) if c not in (0x09, 0x0A, 0x0D))
+    missing = sorted(want - got)
+    extra = sorted(c for c in got - want)
+    r6.check(not missing and not extra, f"{ci.module.relpath}:{getattr(v, 'lineno', 0)}:XMLConverter.CONTROL", ci.qualname, "CONTROL matches exactly U+0000-0008, 000B, 000C, 000E-001F", why=(f"not removed: {[hex(c) for c in missing]} (illegal in XML 1.0: the document would not be well-formed); " if missing else "") + (f"removed although legal: {[hex(c) for c in extra[:8]]}" if extra else ""))
+    wt = model.func(CV + "XMLConverter.write_text")
+    s = "".join(unparse(wt.node).split())
+    r6.check("ifself.stripcontrol:text=self.CONTROL.sub('',text)" in s and s.endswith("self.write(enc(text))"), site(wt), wt.qualname, "write_text strips (when asked) and then escapes what it writes", why="write_text changed")
